@@ -130,6 +130,7 @@ fn eq_case<K: Elem, V: Elem>(c: &mut Ctx, a_spec: &Spec, b_spec: &Spec, rng: &mu
     // values built by recipes are a function of the key id, so same key sets mean same pairs
     crate::check!((a.0 == b.0) == same_keys, "{}: a == b is {} but the contents are {}", what, a.0 == b.0, if same_keys { "equal" } else { "different" });
     crate::check!((a.0 == b.0) == (b.0 == a.0), "{}: == is not symmetric", what);
+    crate::check!((a.0 != b.0) == !(a.0 == b.0), "{}: != is not the negation of ==", what);
     // make b hold exactly a's pairs through a different history
     b.0.clear();
     let mut order = ac.clone();
@@ -151,6 +152,7 @@ fn eq_case<K: Elem, V: Elem>(c: &mut Ctx, a_spec: &Spec, b_spec: &Spec, rng: &mu
     }
     if b.contents().iter().map(|e| e.0).eq(ac.iter().map(|e| e.0)) {
         crate::check!(a.0 == b.0 && b.0 == a.0, "{}: maps with the same pairs (different history, capacity {} vs {}, hashers {:?} vs {:?}) are not ==", what, a.capacity(), b.capacity(), a_spec.plan, b_spec.plan);
+        crate::check!(!(a.0 != b.0) && !(b.0 != a.0), "{}: maps with the same pairs are !=", what);
         c.bump("eq_same_contents_checked");
         // one value differs -> not equal, in both directions
         if let Some((id, _)) = ac.first() {
@@ -210,6 +212,7 @@ fn set_eq_case<T: Elem>(c: &mut Ctx, a_spec: &Spec, b_spec: &Spec) {
         b.put(*id, 9);
     }
     crate::check!(a.0 == b.0 && b.0 == a.0, "{}: sets with the same elements are not ==", what);
+    crate::check!(!(a.0 != b.0) && !(b.0 != a.0), "{}: sets with the same elements are !=", what);
     if let Some(id) = ids(&a).first() {
         b.del(*id);
         crate::check!(a.0 != b.0 && b.0 != a.0, "{}: sets of different size compare equal", what);
